@@ -92,6 +92,9 @@ class RealThread:
       raise Machinery('real thread did not finish an op')
 
 
+EXIT_KINDS = [RuntimeError, KeyboardInterrupt, SystemExit, GeneratorExit]
+
+
 def execute(fec, o, cms, obs):
   b = None if o['b'] == 'none' else o['b']
   if o['op'] == 'set':
@@ -109,8 +112,12 @@ def execute(fec, o, cms, obs):
   elif o['op'] == 'exit':
     cms.pop().__exit__(None, None, None)
   elif o['op'] == 'exit_exc':
-    e = RuntimeError('body failed')
-    cms.pop().__exit__(RuntimeError, e, None)
+    # the block is left by an exception of any kind: an ordinary error, Ctrl-C, sys.exit(), or the close of a suspended
+    # generator that holds the context open
+    EXIT_KINDS.append(EXIT_KINDS.pop(0))
+    cls = EXIT_KINDS[0]
+    e = cls('body failed') if cls is not GeneratorExit else cls()
+    cms.pop().__exit__(cls, e, None)
   elif o['op'] == 'get':
     g = fec.get_for_each_client_backend()
     obs.append({'ForEachClientJitBackend': 'jit', 'ForEachClientDebugBackend': 'debug', 'ForEachClientPmapBackend': 'pmap'}.get(type(g).__name__, type(g).__name__))
@@ -159,7 +166,8 @@ def run(ctx):
   jobs = []
   for d in ([1, 2, 3, 4, 8] if big else [1, 2, 3, 8]):
     # every fifth profile: the same for_each_client function is called three times, the shared input updated in between
-    cases = [{'nb': p, 'gen': i % 2 == 0, 'jax_inputs': i % 3 != 0, 'calls': 3 if (i % 5 == 0 or i % 6 == 0) else 1} for i, p in enumerate(profiles)]
+    cases = [{'nb': p, 'gen': i % 2 == 0, 'jax_inputs': i % 3 != 0, 'calls': 3 if (i % 5 == 0 or i % 6 == 0) else 1, 'odd_ids': i % 2 == 1}
+             for i, p in enumerate(profiles)]
     if d in (3, 4, 8) and not big:
       cases = cases[::3]
     backends = ['pmap'] + (['jit', 'debug'] if d == 1 else [])
